@@ -42,6 +42,8 @@ class RuleResult:
 
     def violation(self, key, site, function, why, **extra):
         f = Finding(self.rule, self.rule + ':' + key, site, function, why, **extra)
+        if any(g.key == f.key for g in self.findings):
+            return f  # one report per construct
         self.findings.append(f)
         return f
 
